@@ -14,27 +14,63 @@ package tex
 //@ pure quoted(b []byte) bool = len(b) >= 2 && b[0] == 34 && b[len(b)-1] == 34
 //@ pure inner(b []byte) string = string(b[1:len(b)-1])
 //
+// ---- encoders: the output is the quoted library numeral of the value ----
+//@ lemma strext(s string, t string)
+//@   trusted string extensionality: Go strings of equal length with equal bytes are equal
+//@   requires len(s) == len(t) && forall k int :: 0 <= k && k < len(s) ==> s[k] == t[k]
+//@   ensures s == t
+//
+//@ func JsInt64.MarshalJSON
+//@   ensures #quoted result1 == nil && quoted(result0) && len(result0) == len(fmti64(int64(i), 10)) + 2
+//@   ensures #numeral inner(result0) == fmti64(int64(i), 10)
+//@   modifies region($alloc)
+//@   use strext(inner(result0), fmti64(int64(i), 10))
+//@ func JsUInt64.MarshalJSON
+//@   ensures #quoted result1 == nil && quoted(result0) && len(result0) == len(fmtu64(uint64(i), 10)) + 2
+//@   ensures #numeral inner(result0) == fmtu64(uint64(i), 10)
+//@   modifies region($alloc)
+//@   use strext(inner(result0), fmtu64(uint64(i), 10))
+//@ func UnixStamp.MarshalJSON
+//@   ensures #quoted result1 == nil && quoted(result0) && len(result0) == len(fmti64(int64(i), 10)) + 2
+//@   ensures #numeral inner(result0) == fmti64(int64(i), 10)
+//@   modifies region($alloc)
+//@   use strext(inner(result0), fmti64(int64(i), 10))
+//@ func JsUnixTime.MarshalJSON
+//@   ensures #quoted result1 == nil && quoted(result0) && len(result0) == len(fmti64(spec_unix(time.Time(i)), 10)) + 2
+//@   ensures #numeral inner(result0) == fmti64(spec_unix(time.Time(i)), 10)
+//@   modifies region($alloc)
+//@   use strext(inner(result0), fmti64(spec_unix(time.Time(i)), 10))
+//@ func Duration.MarshalJSON
+//@   ensures #quoted result1 == nil && quoted(result0) && len(result0) == len(fmtdur(int64(i))) + 2
+//@   ensures #numeral inner(result0) == fmtdur(int64(i))
+//@   modifies region($alloc)
+//@   use strext(inner(result0), fmtdur(int64(i)))
+//
 //@ func JsInt64.UnmarshalJSON
 //@   requires token(b) && i != nil && ErrInvalidInt64Js != nil
 //@   ensures #exact result == nil ==> (quoted(b) && len(b) == 2 && deref(i) == 0) || (quoted(b) && len(b) > 2 && isint(inner(b)) && deref(i) == JsInt64(ival(inner(b)))) || (!quoted(b) && isint(string(b)) && deref(i) == JsInt64(ival(string(b))))
+//@   ensures #accepts quoted(b) && len(b) > 2 && isint(inner(b)) ==> result == nil
 //@   ensures #untouched result != nil ==> deref(i) == old(deref(i))
 //@   modifies deref(i)
 //
 //@ func JsUInt64.UnmarshalJSON
 //@   requires token(b) && i != nil && ErrInvalidInt64Js != nil && ErrInvalidUInt64Js != nil
 //@   ensures #exact result == nil ==> quoted(b) && isuint(inner(b), 10) && deref(i) == JsUInt64(uval(inner(b), 10))
+//@   ensures #accepts quoted(b) && len(b) > 2 && isuint(inner(b), 10) ==> result == nil
 //@   ensures #untouched result != nil ==> deref(i) == old(deref(i))
 //@   modifies deref(i)
 //
 //@ func UnixStamp.UnmarshalJSON
 //@   requires token(b) && i != nil && ErrInvalidInt64Js != nil
 //@   ensures #exact result == nil ==> quoted(b) && isint(inner(b)) && deref(i) == UnixStamp(ival(inner(b)))
+//@   ensures #accepts quoted(b) && len(b) > 2 && isint(inner(b)) ==> result == nil
 //@   ensures #untouched result != nil ==> deref(i) == old(deref(i))
 //@   modifies deref(i)
 //
 //@ func JsUnixTime.UnmarshalJSON
 //@   requires token(b) && i != nil && ErrInvalidInt64Js != nil
 //@   ensures #exact result == nil ==> quoted(b) && isint(inner(b)) && spec_unix(time.Time(deref(i))) == int64(ival(inner(b)))
+//@   ensures #accepts quoted(b) && len(b) > 2 && isint(inner(b)) ==> result == nil
 //@   modifies JsUnixTime.wall, JsUnixTime.ext, JsUnixTime.loc
 //
 //@ func JsNanoTime.UnmarshalJSON
@@ -45,8 +81,36 @@ package tex
 //@ func Duration.UnmarshalJSON
 //@   requires token(b) && i != nil && ErrInvalidDuration != nil
 //@   ensures #exact result == nil ==> quoted(b) && isdur(inner(b)) && int64(deref(i)) == durval(inner(b))
+//@   ensures #accepts quoted(b) && len(b) > 2 && isdur(inner(b)) ==> result == nil
 //@   ensures #untouched result != nil ==> deref(i) == old(deref(i))
 //@   modifies deref(i)
+//
+// ---- round trip: decoding the encoder's output gives back the value (harness functions in zz_harness_verif.go) ----
+//@ func verifRoundTripJsInt64
+//@   requires ErrInvalidInt64Js != nil
+//@   ensures #roundtrip result1 == nil && result0 == v
+//@   modifies region($alloc)
+//@   use fmtparse_i64(int64(v))
+//@ func verifRoundTripJsUInt64
+//@   requires ErrInvalidInt64Js != nil && ErrInvalidUInt64Js != nil
+//@   ensures #roundtrip result1 == nil && result0 == v
+//@   modifies region($alloc)
+//@   use fmtparse_u64(uint64(v))
+//@ func verifRoundTripUnixStamp
+//@   requires ErrInvalidInt64Js != nil
+//@   ensures #roundtrip result1 == nil && result0 == v
+//@   modifies region($alloc)
+//@   use fmtparse_i64(int64(v))
+//@ func verifRoundTripJsUnixTime
+//@   requires ErrInvalidInt64Js != nil
+//@   ensures #roundtrip result1 == nil && spec_unix(time.Time(result0)) == spec_unix(time.Time(v))
+//@   modifies region($alloc), JsUnixTime.wall, JsUnixTime.ext, JsUnixTime.loc
+//@   use fmtparse_i64(spec_unix(time.Time(v)))
+//@ func verifRoundTripDuration
+//@   requires ErrInvalidDuration != nil
+//@   ensures #roundtrip result1 == nil && result0 == v
+//@   modifies region($alloc)
+//@   use fmtparse_dur(int64(v))
 //
 //@ func JsByte.FromString
 //@   requires i != nil && ErrInvalidByteJs != nil
